@@ -151,6 +151,9 @@ func parseIndex2(src []byte, offset int) ([][]byte, error) {
 	}
 	var is indexStart
 	is.mustParse(src[offset:])
+	if is.count != 0 && (is.offSize < 1 || 4 < is.offSize) {
+		return nil, fmt.Errorf("invalid offset size %d", is.offSize)
+	}
 	out, _, err := parseIndexContent(src[offset+5:], is)
 	return out, err
 }
